@@ -129,6 +129,16 @@ def run(ctx):
                         p = [0.0] * (n + 1)
                     cases.append({"fn": "angle_sequence", "p": [hexf(x) for x in p], "eps": hexf(eps), "suc": hexf(rng.choice([0.99, 1 - 1e-4])),
                                   "bits": Q.seed_vectors(rng, n, 1)[0], "shape": "zero-ends:" + kind, "family": True, "timeout": 300})
+        # directed: several non-zero coefficients just below 1e-5 (a default round_zeros threshold) with a budget eps of that order
+        for n in ([4, 8] if quick else [3, 4, 6, 8, 10, 12]):
+            for eps in (1e-5, 2e-5, 5e-5):
+                p = gen_vec(rng, n, 0.5, rng.choice(["sym", "generic"]))
+                idx = rng.sample(range(1, n), min(3, n - 1))
+                for i in idx:
+                    p[i] = rng.choice([-1, 1]) * rng.uniform(7e-6, 9.9e-6)
+                for bits in Q.seed_vectors(rng, n, 2 if quick else 4):
+                    cases.append({"fn": "angle_sequence", "p": [hexf(x) for x in p], "eps": hexf(eps), "suc": hexf(0.995),
+                                  "bits": bits, "shape": "tiny-interior", "family": True, "timeout": 300})
         # outside the totality family: larger n, large norms, odd settings
         for j in range(30 if quick else 300):
             n = rng.choice([13, 16, 20, 25, 30, rng.randint(1, 12)])
